@@ -125,6 +125,71 @@ int main(int argc, char ** argv)
     if(r) return 3;
     drain(); engineexport_finalize(); return 0;
     }
+  if(sc=="step-legality")
+    { // C07: every step of the exact stochastic engine is one possible event
+    Sys s=small_system(3,1,1,true,4.0);
+    s.chst[1]=1;                      // species 0 chemostated in cell 1
+    int S=s.S, R=s.R, n=3;
+    int r = grid ? init_grid(s,"gillespie",policy,"none",{0.0},1e9,0.001,seed,"periodical","reflecting","reflecting") : init_graph(s,"gillespie",policy,"none",{0.0},1e9,0.001,seed);
+    if(r) return 3;
+    std::vector<double> & x = grid ? global_grid_algo->mesh_x : global_graph_algo->mesh_x;
+    double & tt = grid ? global_grid_algo->t : global_graph_algo->t;
+    for(int it=0; it<3000; it++)
+      {
+      std::vector<double> x0=x; double t0=tt;
+      if(!engineexport_iterate()) break;
+      if(!(tt>t0)) { fprintf(stderr,"step-legality: time did not increase at step %d\n",it); return 7; }
+      int changed=0; std::vector<int> idx;
+      for(size_t e=0;e<x.size();e++)
+        {
+        if(x[e]<0 || x[e]!=floor(x[e])) { fprintf(stderr,"step-legality: entry %zu = %g after step %d\n",e,x[e],it); return 7; }
+        if(x[e]!=x0[e]) { changed++; idx.push_back((int)e); }
+        }
+      bool ok=false;
+      // a reaction in one cell (cell-major layout: entry = cell*S+species)
+      for(int c=0;c<n && !ok;c++) for(int q=0;q<R && !ok;q++)
+        {
+        bool enough=true, match=true;
+        for(int sp=0;sp<S;sp++)
+          {
+          if(x0[c*S+sp] < s.sub[sp*R+q]) enough=false;
+          double want = s.chst[sp*n+c] ? 0.0 : (double)s.sto[sp*R+q];
+          if(x[c*S+sp]-x0[c*S+sp]!=want) match=false;
+          }
+        for(size_t e=0;e<x.size();e++) if((int)e/S!=c && x[e]!=x0[e]) match=false;
+        if(enough && match) ok=true;
+        }
+      // one molecule moving between two different cells (or in and out of a chemostated entry)
+      for(int sp=0;sp<S && !ok;sp++) for(int a=0;a<n && !ok;a++) for(int b=0;b<n && !ok;b++)
+        {
+        if(x0[a*S+sp]<1) continue;
+        std::vector<double> y=x0;
+        if(!s.chst[sp*n+a]) y[a*S+sp]-=1;
+        if(!s.chst[sp*n+b]) y[b*S+sp]+=1;
+        if(y==x) ok=true;
+        }
+      if(!ok) { fprintf(stderr,"step-legality: step %d is not one possible event (%d entries changed)\n",it,changed); return 7; }
+      }
+    engineexport_finalize(); return 0;
+    }
+  if(sc=="conservation")
+    { // C02: A <-> B keeps A+B; no chemostat; all engines
+    Sys s=small_system(3,2,1,true,6.0);
+    int S=s.S, n=6;
+    int r = grid ? init_grid(s,option,policy,"none",{0.0},1e9,0.0005,seed,"periodical","reflecting","reflecting") : init_graph(s,option,policy,"none",{0.0},1e9,0.0005,seed);
+    if(r) return 3;
+    std::vector<double> & x = grid ? global_grid_algo->mesh_x : global_graph_algo->mesh_x;
+    double tot0=0; for(size_t e=0;e<x.size();e++) tot0+=x[e];
+    bool exact = std::string(option)!="euler";
+    for(int it=0; it<2000; it++)
+      {
+      if(!engineexport_iterate()) break;
+      double tot=0; for(size_t e=0;e<x.size();e++) tot+=x[e];
+      if(exact ? tot!=tot0 : fabs(tot-tot0)>1e-9*tot0) { fprintf(stderr,"conservation: total %.17g became %.17g at step %d\n",tot0,tot,it); return 7; }
+      }
+    (void)S; (void)n;
+    engineexport_finalize(); return 0;
+    }
   if(sc=="init-state-layout")
     { // C14: the state handed to the engine must keep every (cell, species) amount in its own slot, whatever the mode:
       // species 0 lives in cell 1 only, species 1 is absent.  A molecule of species 1, or of species 0 in cell 0,
